@@ -1,0 +1,20 @@
+//go:build verif
+
+// Contracts for the verifier in /verif (comment-only file; contributes no declarations).
+package obfuscation
+
+// An exclusion p denotes the body cursor c when it is c itself or c addressed from the transaction root
+// (the two supported notations: ".user.name" and "$.request.body.user.name" / "$.response.body.user.name").
+//@ ghost func denotes(p string, c string) bool = p == c || p == "$.request.body" + c || p == "$.response.body" + c
+
+// "An exclusion for one path never exposes a value at a different path": the exclusion test says yes only for a cursor
+// that some exclusion denotes, and always says yes for such a cursor. Go strings are SMT strings here (str.prefixof, str.++).
+//@ func isCursorInExcludedPath
+//@   prop C16
+//@   strings smt
+//@   modifies nothing
+//@   loop 1 modifies nothing
+//@   loop 1 invariant[no-match-before] forall(j, 0, idx1, !denotes(excludedPaths[j], cursor))
+//@   ensures[excluded-only-same-path] result ==> exists(j, 0, len(excludedPaths), denotes(excludedPaths[j], cursor))
+//@   ensures[excluded-complete] cursor != "" && exists(j, 0, len(excludedPaths), denotes(excludedPaths[j], cursor)) ==> result
+//@   ensures[empty-cursor] cursor == "" ==> (result <==> exists(j, 0, len(excludedPaths), excludedPaths[j] == ""))
